@@ -394,7 +394,9 @@ def run(ctx):
             for a, b, nm in (("http://a.com/r?x=1&url=http%3A%2F%2Fb.org%2Fp", "http://a.com/r?x=1&amp;url=http%3A%2F%2Fb.org%2Fp", "amp-entity"),
                              ("http://a.com/r?url=http%3A%2F%2Fb.org%2Fp&x=1", "http://a.com/r?%75rl=http%3A%2F%2Fb.org%2Fp&x=1", "escape"),
                              ("http://a.com/r?url=http%3A%2F%2Fb.org%2Fp&x=1", "HTTP://A.com:80/r?url=http%3A%2F%2Fb.org%2Fp&x=1#frag", "host-case"),
-                             ("http://a.com/r?x=1&url=http%3A%2F%2Fb.org%2Fp", "http://a.com/r?utm_source=z&url=http%3A%2F%2Fb.org%2Fp&x=1", "tracking")):
+                             ("http://a.com/r?x=1&url=http%3A%2F%2Fb.org%2Fp", "http://a.com/r?utm_source=z&url=http%3A%2F%2Fb.org%2Fp&x=1", "tracking"),
+                             ("https://a.com/?u=/x", "//a.com/?u=/x", "scheme"), ("https://a.com/p?k=1&next=/home/page", "//a.com:443/p?k=1&next=/home/page", "default-port"),
+                             ("https://a.com/p?next=/home", "a.com/p?next=/home", "scheme"), ("http://a.com/?u=/xyz", " http://a.com/?u=/xyz", "wrap")):
                 check_chain(ctx, fn, a, [(nm, b)], OPTSETS)
                 ctx.count("variation-of-the-carrier-of-a-redirect")
             for u in ("http://example.com/x?si=abc&t=42&ab_channel=z&_rdr=1&cbrd=1", "http://example.org/?t=42", "https://www.youtube.com/results?search_query=cats&t=42&si=abc", "https://www.facebook.com/x/y?_rdr=1&si=abc"):
@@ -410,6 +412,10 @@ def run(ctx):
                     check_chain(ctx, fn, u + "&" + items, [(hname, sp[0] + "//" + hv + "/" + sp[3])], OPTSETS)
                     ctx.count("per-domain-item-with-host-spelling")
             # one component holding an escaped invisible character and a non-ASCII letter written raw / escaped
+            for a, b in (("http://example.com/article/%c3%bc/page", "http://example.com/article/%C3%BC/page"), ("http://example.com/article/%c3%bc/page", "http://example.com/article/ü/page"),
+                         ("http://example.com/x?k=%ce%bb%ce%bb", "http://example.com/x?k=λλ"), ("http://example.com/x?%ff=%bc", "http://example.com/x?%FF=%BC")):
+                check_chain(ctx, fn, a, [("escape", b)], OPTSETS)
+                ctx.count("escape-with-two-lower-case-hex-letters")
             for inv in ("%C2%A0", "%C2%85", "%E2%80%A8", "%E3%80%80", "%E2%80%8A", "%7F", "%00"):
                 for a, b in (("http://example.com/café/a%sb" % inv, "http://example.com/caf%%C3%%A9/a%sb" % inv), ("http://example.com/x?k=é%s&z=1" % inv, "http://example.com/x?k=%%C3%%A9%s&z=1" % inv),
                              ("http://example.com/x?é%s=1" % inv, "http://example.com/x?%%c3%%a9%s=1" % inv), ("http://example.com/%sé" % inv, "http://example.com/%s%%C3%%A9" % inv)):
